@@ -93,14 +93,13 @@ impl<T, U, W> Ds<T, U, W> {
     { Ds { records: self.records, targets: self.targets, weights: self.weights, feature_names: self.feature_names, target_names: names } }
 }
 
-// the float part: uninterpreted (Verus does not interpret f32).  ASSUMPTION, listed: for a finite ratio in [0,1] the
-// count does not exceed n.  True whenever n is exactly representable in f32 (n <= 2^24); beyond that n as f32 can
-// round up and the real function panics at `self.nsamples() - n1` (natively observed: n = 16_777_219, ratio = 1.0).
+// the float part: uninterpreted (Verus does not interpret f32); NOTHING is assumed about its value: n as f32 can round up beyond 2^24 samples
+// (natively observed: n = 16_777_219, ratio = 1.0 made the old code panic at `self.nsamples() - n1`), the code clamps it with `.min(nsamples)`.
 // The value of the count itself is decided by the Kani units (n <= 3, ratio fully symbolic).
 pub uninterp spec fn spec_ceil_count(n: usize, ratio: f32) -> usize;
 #[verifier::external_body]
 fn ceil_count(n: usize, ratio: f32) -> (r: usize)
-    ensures r == spec_ceil_count(n, ratio), r <= n,
+    ensures r == spec_ceil_count(n, ratio),
 {
     (n as f32 * ratio).ceil() as usize
 }
@@ -136,7 +135,7 @@ fn split_owned<T, U, W>(ds: Ds<T, U, W>, ratio: f32) -> (r: (Ds<T, U, W>, Ds<T, 
             let n = ds.records.dim.n as int;
             let nf = ds.records.dim.m as int;
             let m = ds.targets.dim.m as int;
-            let n1 = spec_ceil_count(ds.records.dim.n, ratio) as int;
+            let n1 = if spec_ceil_count(ds.records.dim.n, ratio) <= ds.records.dim.n { spec_ceil_count(ds.records.dim.n, ratio) as int } else { ds.records.dim.n as int };      // min(ceil(n * ratio), n)
             let (a, b) = r;
             &&& a.records.dim == (Dim { n: n1 as usize, m: nf as usize }) && b.records.dim == (Dim { n: (n - n1) as usize, m: nf as usize })
             &&& a.targets.dim == (Dim { n: n1 as usize, m: m as usize }) && b.targets.dim == (Dim { n: (n - n1) as usize, m: m as usize })
